@@ -93,30 +93,30 @@ type c37Entry struct {
 
 func c37Name(serial int) string { return fmt.Sprintf("m%d", serial) }
 
-func genC37Ops(maxSteps int) *rapid.Generator[[]c37Op] {
-	return rapid.Custom(func(t *rapid.T) []c37Op {
-		n := rapid.IntRange(1, maxSteps).Draw(t, "steps")
-		// per-sequence bias so that some sequences are join-heavy (nodes with many addresses) and others churn
-		joinPct := rapid.SampledFrom([]int{50, 60, 70, 80}).Draw(t, "joinPct")
-		ops := make([]c37Op, n)
-
-		for i := range ops {
-			o := c37Op{
-				Addr:   rapid.IntRange(0, c37Addrs-1).Draw(t, "addr"),
-				Form16: rapid.Bool().Draw(t, "form16"),
-			}
-
-			if rapid.IntRange(0, 99).Draw(t, "k") < joinPct {
-				o.Kind = "join"
-				o.Node = rapid.IntRange(0, c37Nodes-1).Draw(t, "node")
-			} else {
-				o.Kind = "leave"
-			}
-
-			ops[i] = o
+func genC37Op(joinPct int) *rapid.Generator[c37Op] {
+	return rapid.Custom(func(t *rapid.T) c37Op {
+		o := c37Op{
+			Addr:   rapid.IntRange(0, c37Addrs-1).Draw(t, "addr"),
+			Form16: rapid.Bool().Draw(t, "form16"),
 		}
 
-		return ops
+		if rapid.IntRange(0, 99).Draw(t, "k") < joinPct {
+			o.Kind = "join"
+			o.Node = rapid.IntRange(0, c37Nodes-1).Draw(t, "node")
+		} else {
+			o.Kind = "leave"
+		}
+
+		return o
+	})
+}
+
+func genC37Ops(maxSteps int) *rapid.Generator[[]c37Op] {
+	return rapid.Custom(func(t *rapid.T) []c37Op {
+		// per-sequence bias so that some sequences are join-heavy (nodes with many addresses) and others churn
+		joinPct := rapid.SampledFrom([]int{80, 70, 60, 50}).Draw(t, "joinPct")
+
+		return rapid.SliceOfN(genC37Op(joinPct), 1, maxSteps).Draw(t, "ops")
 	})
 }
 
